@@ -1,5 +1,5 @@
 """C03 — MinFlowDecomp (DAG) always finds a decomposition and it has the fewest paths."""
-from contracts import c13, stubs
+from contracts import c13, c10, stubs
 
 LEVEL = "other"
 TRUSTED = [stubs.A_SOLVER]
@@ -11,7 +11,7 @@ EXPLANATION = ("Proved (PyVC, unbounded): the search loop of MinFlowDecomp.solve
 
 
 def units(tier):
-    return [u for u in c13.u_min_loops() if "C03" in u.props]
+    return [u for u in c13.u_min_loops() if "C03" in u.props] + c10.all_units()
 
 
 def bounded(tier, seed):
